@@ -26,3 +26,44 @@ func (v *VerifInputs) GetProposal(ctx context.Context, instance uint64) (*gpbft.
 func (v *VerifInputs) GetCommittee(ctx context.Context, instance uint64) (*gpbft.Committee, error) {
 	return v.in.GetCommittee(ctx, instance)
 }
+
+// ---- C12 accessors ---------------------------------------------------------
+
+// VerifEquivocationFilter wraps the unexported self-equivocation filter.
+type VerifEquivocationFilter struct{ f equivocationFilter }
+
+func VerifNewEquivocationFilter(local string) *VerifEquivocationFilter {
+	return &VerifEquivocationFilter{f: newEquivocationFilter(peerIDOf(local))}
+}
+func (v *VerifEquivocationFilter) ProcessBroadcast(m *gpbft.GMessage) bool { return v.f.ProcessBroadcast(m) }
+func (v *VerifEquivocationFilter) ProcessReceive(from string, m *gpbft.GMessage) {
+	v.f.ProcessReceive(peerIDOf(from), m)
+}
+
+// VerifReadWAL reads every message currently decodable from the WAL directory
+// with a fresh reader (as a restarted process would).
+func VerifReadWAL(dir string) ([]*gpbft.GMessage, error) {
+	w, err := writeaheadlogOpen(dir)
+	if err != nil {
+		return nil, err
+	}
+	entries, err := w.All()
+	if err != nil {
+		return nil, err
+	}
+	out := make([]*gpbft.GMessage, len(entries))
+	for i, e := range entries {
+		out[i] = e.Message
+	}
+	return out, nil
+}
+
+// VerifRequestRebroadcast asks the running node to rebroadcast what it sent at
+// the given instant (what the participant does on rebroadcast timeouts).
+func (m *F3) VerifRequestRebroadcast(in gpbft.Instant) error {
+	st := m.state.Load()
+	if st == nil || st.runner == nil {
+		return ErrF3NotRunning
+	}
+	return (*gpbftHost)(st.runner).RequestRebroadcast(in)
+}
